@@ -583,3 +583,41 @@ def c19(tier, seed):
     simple_validate("C19", v, scs, "all", "Trace_Views", sigfn=lambda sc, tup: {"fam": "views", "what": tup[3]})
     v.samples = [scs[3], scs[-1]]
     return v.finish()
+
+
+@prop("C13")
+def c13(tier, seed):
+    v = Verdicts("C13", tier, seed)
+    th = tier == "thorough"
+    v.rule = ("Gen_Shade(image): 12 current transforms x 11 source transforms (dyadic: translations by integers and 1/4, 1/2, scales 2, 1/2, "
+              "1/4, (2,1), rotation, mirror, singular) x 5 images (1x1..3x3, distinct premultiplied texels) x Pad/Repeat x Nearest/Bilinear "
+              "x 4 alphas, rendered with Src over a 6x6 surface; draw_image_at / draw_image_with_size_at placements; quick keeps one "
+              "scenario in SUB by hash; non-trivial = something drawn")
+    v.trusted = ["harness Src render of the source (harness/src/shade.rs)"]
+    g, scs = gen_scenarios("C13", "Gen_Shade", env={"KIND": "image", "SUB": 1 if th else 2, "SALT": seed}, timeout=1500)
+    v.add_tlc(g)
+    v.exhaustive = th
+    simple_validate("C13", v, scs, "all", "Trace_Shade", sigfn=lambda sc, tup: {"fam": "shade", "kind": "image", "via": sc.get("via")})
+    v.samples = [scs[0], scs[-1]]
+    return v.finish()
+
+
+@prop("C12")
+def c12(tier, seed):
+    v = Verdicts("C12", tier, seed)
+    th = tier == "thorough"
+    v.rule = ("Gen_Shade(linear, radial): 12 current transforms x 3 spreads x 6 stop lists (1-5 stops, coincident and end-pinned stops, "
+              "alpha ramps) x 7 linear / 4 radial geometries x 4 alphas, rendered with Src over an 8x8 surface so that t spans beyond [0,1]; "
+              "every channel must lie within 4 of the premultiplied alpha-scaled colour range over t +- 3/255; non-trivial = something drawn")
+    v.trusted = ["harness Src render of the source (harness/src/shade.rs)", "interval arithmetic of Shade.tla GradWindow (sound, may be wider than the text)"]
+    scs = []
+    for kind in ("linear", "radial"):
+        g, s1 = gen_scenarios("C12", "Gen_Shade", env={"KIND": kind, "SUB": 1 if th else 3, "SALT": seed}, timeout=1500)
+        v.add_tlc(g)
+        scs += s1
+    v.exhaustive = th
+    scs += known_scenarios("C12", "shade")
+    simple_validate("C12", v, scs, "all", "Trace_Shade",
+                    sigfn=lambda sc, tup: {"fam": "shade", "kind": sc["src"]["kind"], "alpha_lt_1": sc["alpha"][0] != sc["alpha"][1]})
+    v.samples = [scs[0], scs[-1]]
+    return v.finish()
